@@ -12,7 +12,7 @@ use serial_core::{BaudRate, CharSize, ErrorKind, FlowControl, Parity, PortSettin
 use crate::engine::{catch, par_range, Ctx, Stats};
 use crate::io::port::{PortState, TestPort};
 
-pub const RULE: &str = "the full product of prior port settings representable by PortSettings (11 standard baud rates + BaudOther(0), BaudOther(19200), BaudOther(250000); 4 character sizes; 3 parities; 2 stop-bit settings; 3 flow controls = 1008 combinations) x entry point {configure_port with 4 timeouts, SerialSignBus::try_new, Odk::try_new} x injected failure {none, read_settings, set_baud_rate, write_settings, set_timeout} x 3 error kinds, enumerated exhaustively on an instrumented SerialDevice. Oracle: on success the final settings are exactly 19200/8/N/1/none and a timeout was applied (the caller's value for configure_port, any non-zero value for the constructors); with a failure injected the call returns Err of the injected kind. Non-trivial = the prior settings differ from the target in at least one field, or a failure is injected; distinct by construction";
+pub const RULE: &str = "the full product of prior port settings representable by PortSettings (11 standard baud rates + BaudOther(0), BaudOther(19200), BaudOther(250000); 4 character sizes; 3 parities; 2 stop-bit settings; 3 flow controls = 1008 combinations) x entry point {configure_port with 4 timeouts, SerialSignBus::try_new, Odk::try_new} x injected failure {none, read_settings, set_baud_rate, write_settings, set_timeout} x {permanent, only the first such call} x 3 error kinds, enumerated exhaustively on an instrumented SerialDevice. Oracle: on success the final settings are exactly 19200/8/N/1/none and a timeout was applied (the caller's value for configure_port, any non-zero value for the constructors); with a failure injected the call returns Err of the injected kind. Non-trivial = the prior settings differ from the target in at least one field, or a failure is injected; distinct by construction";
 pub const ASSUMPTIONS: &[&str] = &["the instrumented SerialDevice (io/port.rs) records settings and timeouts faithfully; serial-core's blanket SerialPort::reconfigure is the code path flipdot uses"];
 
 const BAUDS: [BaudRate; 14] = [
@@ -48,6 +48,9 @@ pub struct PortCase {
     /// 0 none, 1 read_settings, 2 set_baud_rate, 3 write_settings, 4 set_timeout
     pub fail: u8,
     pub kind: usize,
+    /// false = the port refuses every time; true = only the first such call fails (a transient fault)
+    #[serde(default)]
+    pub transient: bool,
 }
 
 struct NullBus;
@@ -84,6 +87,9 @@ pub fn check_port(c: &PortCase, st: &mut Stats) -> Result<(), String> {
         3 => state.fail_write_settings = Some(kind),
         4 => state.fail_set_timeout = Some(kind),
         _ => {}
+    }
+    if c.transient {
+        state.fail_budget = Some(1);
     }
     let port = TestPort::with_state(state);
     let h = port.handle();
@@ -160,11 +166,16 @@ pub fn run(ctx: &Ctx) {
                 for fail in 0..5u8 {
                     let kinds: &[usize] = if fail == 0 { &[0] } else { &[0, 1, 2] };
                     for &kind in kinds {
-                        let c = PortCase { prior, entry, timeout_ms, fail, kind };
-                        check_port(&c, st).map_err(|m| (serde_json::to_value(&c).unwrap(), m))?;
-                        n += 1;
-                        if !is_target || fail != 0 {
-                            nt += 1;
+                        for transient in [false, true] {
+                            if transient && fail == 0 {
+                                continue;
+                            }
+                            let c = PortCase { prior, entry, timeout_ms, fail, kind, transient };
+                            check_port(&c, st).map_err(|m| (serde_json::to_value(&c).unwrap(), m))?;
+                            n += 1;
+                            if !is_target || fail != 0 {
+                                nt += 1;
+                            }
                         }
                     }
                 }
